@@ -429,6 +429,7 @@ class BaseParser:
     ):
         addition = {}
         result = {}
+        provided = {}   # field name -> the (first) input value given for it under any accepted name
         dependencies = set()
         unprovided_fields = set()
         options = context.options
@@ -444,21 +445,25 @@ class BaseParser:
 
             name = field.attname if as_attname else field.name
 
+            if excluded_keys and name in excluded_keys:
+                continue
+
+            if name in provided:
+                # another accepted name of a field already taken from the input:
+                # compare the input values (not the parsed one), before anything else, as field_first_parse does
+                if not options.ignore_alias_conflicts:
+                    if provided[name] != value:
+                        context.handle_error(exc.AliasConflictError(item=name, value=value))
+                    continue
+            else:
+                provided[name] = value
+
             if field.is_no_input(value, options=options):
                 # no input field does not take input from __init__
                 # but can still apply default
                 default = field.get_default(options, defer=False)
                 if not unprovided(default):
                     result[name] = default
-                continue
-
-            if not options.ignore_alias_conflicts:
-                if name in result:  # or (excluded_keys and name in excluded_keys):
-                    if result[name] != value:
-                        context.handle_error(exc.AliasConflictError(item=name, value=value))
-                    continue
-
-            if excluded_keys and name in excluded_keys:
                 continue
 
             parsed = field.parse_value(value, context=context)
@@ -476,7 +481,9 @@ class BaseParser:
         # defaults of the unprovided fields still apply, as in field_first_parse
         for key, field in self.fields.items():
             name = field.attname if as_attname else field.name
-            if name in result:
+            if name in result or name in provided:
+                # a field given in the input is not absent, even if it was not taken
+                # (no_input, excluded or collected parse error)
                 continue
             if excluded_keys and name in excluded_keys:
                 continue
